@@ -13,8 +13,9 @@
   select (bad-data / tick / stop) and the response stream, every sequence of consumer outcomes,
   every batch size and every point at which SendDataResponse starts failing.
 
-  The code as written violates three clauses (confirmed on the real code by h_recv, signatures
-  `ack-before-bad-report`, `ack-regress`, `bad-range-off-by-one`). For those the full statement is
+  The code as written violates two clauses (confirmed on the real code by h_recv, signatures
+  `ack-before-bad-report`, `ack-regress`; a third one, `bad-range-off-by-one`, was repaired by fix
+  commit 3f3aa6e and its clause is now proved at full strength). For those the full statement is
   kept and its NEGATION is proved from a concrete run; the `_partial` theorem carries the excluding
   hypothesis explicitly.
 -/
@@ -48,7 +49,7 @@ example : ∃ s, Lockstep.run {} [.write, .write, .flush, .read, .write, .flush,
 /-! ## the run observed on the real code that breaks two clauses
 
   `h_recv` case resp-race-3 / onstream-race-*: responses `ack=2`, `ack=10`, then
-  `ack=4 ranges=[2,4]`. Batch 1 (ids 1..2) accepted and acknowledged; batch 2 (ids 3..4) permanently
+  `ack=4 ranges=[3,4]` (`[2,4]` before fix 3f3aa6e). Batch 1 (ids 1..2) accepted and acknowledged; batch 2 (ids 3..4) permanently
   rejected and put into the channel; batch 3 (ids 5..10) accepted; Run's select takes the tick
   branch first (ack 10) and only then the bad-data branch (ack 4). -/
 def raceRun : List Event :=
@@ -106,7 +107,7 @@ theorem ack_after_consume_partial :
 
 /-- non-vacuity: `cleanRun` satisfies the hypothesis, acknowledges ids 2, 5, 6 and reports a range. -/
 example : TickClean init cleanRun ∧
-    ∃ s, run init cleanRun = some s ∧ acks s = [2, 5, 6] ∧ reportedOk s = [(2, 5)] :=
+    ∃ s, run init cleanRun = some s ∧ acks s = [2, 5, 6] ∧ reportedOk s = [(3, 5)] :=
   ⟨by decide, _, rfl, by decide, by decide⟩
 
 /-- The acknowledged id never exceeds what was decoded, in EVERY run (this half needs no hypothesis). -/
@@ -147,56 +148,39 @@ theorem ack_monotone_partial :
 example : TickClean init cleanRun ∧ ∃ s, run init cleanRun = some s ∧ acks s = [2, 5, 6] :=
   ⟨by decide, _, rfl, by decide⟩
 
-/-! ## a permanently rejected batch is reported exactly once, with exactly its range -/
+/-! ## a permanently rejected batch is reported exactly once, with exactly its range
 
-/-- FULL statement: the inclusive range of exactly the batch's records (`from_+1 .. to`) occurs
-    exactly once among the ranges put into responses plus those still on their way. -/
-def BadBatchOnceExact : Prop :=
-  ∀ evs s, run init evs = some s → ∀ b ∈ s.batches, b.out = .perm →
-    (reported s ++ pendingBad s).count b.exactRange = 1
+  Before fix commit 3f3aa6e onStream reported `[RecordCount() before the batch, RecordCount() after]`,
+  one id too many at the lower end (known finding `bad-range-off-by-one`, now `fixed:`); the model
+  then proved the negation of this statement. With `FromID: fromRecordID + 1` it holds in EVERY run. -/
 
-/-- The code as written violates it: the batch with ids 3..5 is reported as [2,5]
-    (`FromID = RecordCount()` before the batch, ranges are inclusive). -/
-theorem bad_batch_once_exact_false : ¬ BadBatchOnceExact := by
-  intro h
-  have := h cleanRun ((run init cleanRun).getD init) (by decide) ⟨2, 5, .perm⟩ (by decide) rfl
-  revert this
-  decide
-
-/-- What does hold in EVERY run: each permanently rejected batch occurs exactly once - as
-    `(from_, to)` - among the ranges reported or on their way (so it is never reported twice and
-    never dropped), nothing else is ever reported, and the reported range covers the batch's
-    records plus exactly one more id, `from_`: the last record of the PREVIOUS batch. With the
-    excluding hypothesis `b.from_ = 0` (the first batch of a stream; id 0 is no record) the range
-    covers exactly the batch. -/
-theorem bad_batch_once_exact_partial :
+/-- In every run, every permanently rejected batch occurs exactly once - as the inclusive range of
+    exactly its records, `from_+1 .. to` - among the ranges put into responses plus those still on
+    their way (so it is never reported twice and never dropped while the stream lives), that range
+    covers precisely the record ids of the batch, and nothing else is ever reported. -/
+theorem bad_batch_once_exact :
     ∀ evs s, run init evs = some s →
       (∀ b ∈ s.batches, b.out = .perm →
-        (reported s ++ pendingBad s).count b.writtenRange = 1 ∧
-        (∀ i, covers b.writtenRange i ↔ (b.has i ∨ i = b.from_)) ∧
-        (b.from_ = 0 → ∀ i, 1 ≤ i → (covers b.writtenRange i ↔ b.has i))) ∧
-      (∀ x ∈ reported s ++ pendingBad s, ∃ b ∈ s.batches, b.out = .perm ∧ x = b.writtenRange) := by
+        (reported s ++ pendingBad s).count b.exactRange = 1 ∧
+        (∀ i, covers b.exactRange i ↔ b.has i)) ∧
+      (∀ x ∈ reported s ++ pendingBad s, ∃ b ∈ s.batches, b.out = .perm ∧ x = b.exactRange) := by
   intro evs s hrun
   have hi := inv_run evs init s inv_init hrun
   refine ⟨?_, ?_⟩
   · intro b hb hp
-    refine ⟨?_, ?_, ?_⟩
+    refine ⟨?_, ?_⟩
     · rw [hi.ledger]; exact count_permRanges _ _ hi.chain b hb hp
     · intro i
-      have := (permRanges_bounds _ _ hi.chain _ (mem_permRanges hb hp)).1
-      simp only [covers, Batch.writtenRange, Batch.has] at this ⊢
-      omega
-    · intro h0 i hi1
-      simp only [covers, Batch.writtenRange, Batch.has]
+      simp only [covers, Batch.exactRange, Batch.has]
       omega
   · intro x hx
     rw [hi.ledger] at hx
     exact of_mem_permRanges hx
 
-/-- non-vacuity: in `raceRun` the rejected batch (ids 3..4) is reported once as [2,4]; id 2 belongs
-    to the accepted first batch. -/
-example : ∃ s, run init raceRun = some s ∧ reported s = [(2, 4)] ∧ pendingBad s = [] ∧
-    (⟨2, 4, .perm⟩ : Batch) ∈ s.batches ∧ (⟨0, 2, .accept⟩ : Batch).has 2 ∧ covers (2, 4) 2 :=
+/-- non-vacuity: in `raceRun` the rejected batch (ids 3..4) is reported once, as [3,4]; id 2, the
+    last record of the accepted first batch, is not covered. -/
+example : ∃ s, run init raceRun = some s ∧ reported s = [(3, 4)] ∧ pendingBad s = [] ∧
+    (⟨2, 4, .perm⟩ : Batch) ∈ s.batches ∧ (⟨0, 2, .accept⟩ : Batch).has 2 ∧ ¬ covers (3, 4) 2 :=
   ⟨_, rfl, by decide, by decide, by decide, by simp [Batch.has], by simp [covers]⟩
 
 /-- Whatever waits is eventually reported: from a state with bad data in the channel and the
@@ -208,7 +192,7 @@ theorem bad_data_gets_reported :
   intro evs s h tl _ hq hidle
   exact ⟨{ s with queue := tl, qpc := .composing h.2 [h] }, by simp [step, hq, hidle], by simp [inflight]⟩
 
-example : ∃ s, run init (raceRun.take 16) = some s ∧ s.queue = [(2, 4)] ∧ s.qpc = .idle :=
+example : ∃ s, run init (raceRun.take 16) = some s ∧ s.queue = [(3, 4)] ∧ s.qpc = .idle :=
   ⟨_, rfl, by decide, by decide⟩
 
 /-! ## the stream continues after a permanent error -/
@@ -240,7 +224,7 @@ theorem stream_continues :
   simp [step, ha, this]
 
 /-- non-vacuity: after the rejected batch of `raceRun` the loop decodes and delivers batch 3. -/
-example : ∃ s, run init (raceRun.take 9) = some s ∧ s.rpc = .needBad 2 4 ∧
+example : ∃ s, run init (raceRun.take 9) = some s ∧ s.rpc = .needBad 3 4 ∧
     ∃ s', run s [.schedBad, .checkErr, .decode 6, .consume .accept] = some s' ∧ s'.decoded = 10 :=
   ⟨_, rfl, rfl, _, rfl, rfl⟩
 
